@@ -596,6 +596,10 @@ func (p *pp) handleMethods(verb rune) (handled bool)
   assert [C17] v == p.arg && (old(verb) == 119 ==> verb == 118) && (old(verb) != 119 ==> verb == old(verb)) before "redactErrorFn(v, p, verb)"
   assert [C17] othercalls == gother after "redactErrorFn(v, p, verb)"
   ensures [C17] !old(p.erroring) && old(p.buf.gctx) != 2 && hasType(old(p.arg), "error") && !hasType(old(p.arg), "interfaces.SafeFormatter") && !hasType(old(p.arg), "interface(SafeMessage()_string)") && !isnil(redactErrorFn) && (verb != 119 || WCapture(p, old(p.arg))) ==> handled && hookcalls > old(hookcalls)
+  -- every operand that has a method the dispatch uses under this directive is reported as handled on every
+  -- returning path, also when that method panicked and catchPanic reported it (otherwise the caller would
+  -- render the operand a second time by reflection, after the panic report)
+  ensures [C11] !old(p.erroring) && verb != 119 && ((old(p.buf.gctx) != 2 && (hasType(old(p.arg), "interfaces.SafeFormatter") || hasType(old(p.arg), "interface(SafeMessage()_string)") || (hasType(old(p.arg), "error") && !isnil(redactErrorFn)))) || hasType(old(p.arg), "rfmt.Formatter") || (old(p.fmt.sharpV) && hasType(old(p.arg), "rfmt.GoStringer")) || (!old(p.fmt.sharpV) && (verb == 118 || verb == 115 || verb == 120 || verb == 88 || verb == 113) && (hasType(old(p.arg), "error") || hasType(old(p.arg), "rfmt.Stringer")))) ==> handled
   ensures [C15] verb == 119 && !old(p.erroring) && WCapture(p, old(p.arg)) ==> p.wrapErrs && p.wrappedErr == old(p.arg)
   ensures [C15] verb == 119 && !old(p.erroring) && !WCapture(p, old(p.arg)) ==> !p.wrapErrs && isnil(p.wrappedErr) && handled
   ensures [C15] verb == 119 && !old(p.erroring) && !old(p.fmt.sharpV) && hasType(old(p.arg), "error") ==> handled
